@@ -351,6 +351,31 @@ func (env *SpecEnv) tr(x *CExpr) (SVal, error) {
 		}
 		return SVal{T: app("store", b.T, k.T, v.T), Typ: b.Typ, Sort: b.Sort, ElemTyp: b.ElemTyp}, nil
 	case "slice":
+		// slicing a local array variable (its address is the base of the backing array)
+		if id := x.Args[0]; id.Op == "id" && env.fr != nil && env.block != nil && !env.entryOnly && !env.inOld {
+			if sv, isAddr, ok := env.fr.lookupName(id.Name, env.block, env.idx); ok && isAddr {
+				if pt, ok := sv.Type().Underlying().(*types.Pointer); ok {
+					if at, ok := pt.Elem().Underlying().(*types.Array); ok && e.val(sv).Loc == nil {
+						lo, hi := "0", fmt.Sprint(at.Len())
+						if x.Args[1] != nil {
+							l, err := env.tr(x.Args[1])
+							if err != nil {
+								return SVal{}, err
+							}
+							lo = l.T
+						}
+						if x.Args[2] != nil {
+							h, err := env.tr(x.Args[2])
+							if err != nil {
+								return SVal{}, err
+							}
+							hi = h.T
+						}
+						return SVal{T: app("mk-slice", e.val(sv).T, lo, app("-", hi, lo), app("-", fmt.Sprint(at.Len()), lo)), Typ: types.NewSlice(at.Elem()), Sort: "Slice"}, nil
+					}
+				}
+			}
+		}
 		b, err := env.tr(x.Args[0])
 		if err != nil {
 			return SVal{}, err
@@ -867,6 +892,16 @@ func (env *SpecEnv) call(x *CExpr) (SVal, error) {
 			return SVal{}, err
 		}
 		return SVal{T: app(e.errAsPred(t), a.T), Typ: boolT, Sort: "Bool"}, nil
+	case "at": // at(o, i) == o + i, written with the uninterpreted idx so that quantified facts about position o+i have a trigger mentioning i
+		a, err := argv(0)
+		if err != nil {
+			return SVal{}, err
+		}
+		b, err := argv(1)
+		if err != nil {
+			return SVal{}, err
+		}
+		return SVal{T: app("idx", a.T, b.T), Typ: intT, Sort: "Int"}, nil
 	case "errorsAsVal": // errorsAsVal(err, T): what errors.As stores into a target of type T on success
 		a, err := argv(0)
 		if err != nil {
